@@ -215,6 +215,8 @@ def aggregate(results, left):
             cov['samples'] += r['samples'][:1]
     cov['solver_s'] = round(cov['solver_s'], 2)
     cov['evaluations'] = cov['programs']
+    slow = sorted(((r.get('wall_s', 0), r.get('paths', 0), r.get('job')) for r in results if 'harness_error' not in r), key=lambda x: -x[0])[:6]
+    cov['slowest_jobs'] = [{'wall_s': round(w, 1), 'paths': p, 'job': str(j)[:110]} for w, p, j in slow]
     return cov, cands, inconc, herr
 
 
